@@ -25,6 +25,7 @@ func runC12(c *Ctx) {
 	ruleReverseGroups(c)
 	ruleDerivedSignatures(c)
 	ruleIsNilMeansNull(c, "R12.f")
+	rulePayloadStores(c, "R12.f")
 	// "counters reject non-integers and overflow" presupposes that the integer decoding itself does
 	ruleNumericAccessorsAs(c, "R12.g")
 	c.assume("primitive handler operations behave like Redis (the property grants this); ReverseBy's index arithmetic is in range only for len % step == 0, i.e. for member/score pairs")
@@ -215,6 +216,30 @@ func ruleConfigAgreement(c *Ctx) {
 	}
 	cs := c.P.Method(pkgRedis, "Server", "ConfigSet")
 	cg := c.P.Method(pkgRedis, "Server", "ConfigGet")
+	// the functions CONFIG SET / CONFIG GET really call (a method added to an embedding type
+	// shadows the promoted one without any change at the call site): along the chain down to
+	// the map the key must travel unchanged on both sides
+	for _, side := range []struct {
+		fn    *ssa.Function
+		name  string
+		write bool
+	}{{cs, "SetConfig", true}, {cg, "ConfigString", false}} {
+		if side.fn == nil {
+			continue
+		}
+		allInstrs(side.fn, func(ins ssa.Instruction) {
+			call, ok := ins.(*ssa.Call)
+			if !ok {
+				return
+			}
+			callee := staticCallee(call.Common())
+			if callee == nil || callee.Name() != side.name || !inFramework(callee) {
+				return
+			}
+			okFlow, why := configKeyUnchanged(callee, 1, side.write, 0)
+			c.check(okFlow, rid, fmt.Sprintf("%s/key-path:%s", fnName(side.fn), fnName(callee)), c.P.instrPos(call), "the parameter name reaches the map unchanged through "+fnName(callee), "the parameter name is transformed on the way to the map through "+fnName(callee)+" ("+why+"): CONFIG SET and CONFIG GET no longer agree on the key")
+		})
+	}
 	if c.anchor(rid, cs, "Server.ConfigSet") {
 		okS := false
 		allInstrs(cs, func(ins ssa.Instruction) {
@@ -526,4 +551,62 @@ func ruleDerivedSignatures(c *Ctx) {
 	}
 	c.count("derived-commands", n)
 	c.floor("derived-commands", 20)
+}
+
+// configKeyUnchanged: in fn the parameter at index k is used as the key of a map update (write)
+// or lookup on Config.params, directly or by being passed on unchanged to a framework function
+// for which the same holds.
+func configKeyUnchanged(fn *ssa.Function, k int, write bool, depth int) (bool, string) {
+	if fn == nil || fn.Blocks == nil || k >= len(fn.Params) || depth > 4 {
+		return false, "not followed"
+	}
+	par := fn.Params[k]
+	found, bad := false, ""
+	allInstrs(fn, func(ins ssa.Instruction) {
+		switch x := ins.(type) {
+		case *ssa.MapUpdate:
+			if write {
+				if strip(x.Key) == ssa.Value(par) {
+					found = true
+				} else if owner, _, _, ok := fieldOf(x.Map); ok && strings.HasSuffix(owner, "Config") {
+					bad = "the map is updated under a key other than the parameter"
+				}
+			}
+		case *ssa.Lookup:
+			if !write {
+				if _, isMap := x.X.Type().Underlying().(*types.Map); isMap {
+					if strip(x.Index) == ssa.Value(par) {
+						found = true
+					} else if owner, _, _, ok := fieldOf(x.X); ok && strings.HasSuffix(owner, "Config") {
+						bad = "the map is read under a key other than the parameter"
+					}
+				}
+			}
+		case *ssa.Call:
+			callee := staticCallee(x.Common())
+			if callee == nil || !inFramework(callee) || callee.Blocks == nil {
+				return
+			}
+			for i, a := range x.Common().Args {
+				if strip(a) == ssa.Value(par) {
+					if ok, _ := configKeyUnchanged(callee, i, write, depth+1); ok {
+						found = true
+					}
+				}
+			}
+			// the same operation reached with a transformed key
+			if (callee.Name() == "SetConfig" && write) || (callee.Name() == "ConfigString" && !write) {
+				if len(x.Common().Args) > 1 && strip(x.Common().Args[1]) != ssa.Value(par) {
+					bad = "calls " + fnName(callee) + " with a key computed from the parameter"
+				}
+			}
+		}
+	})
+	if bad != "" {
+		return false, bad
+	}
+	if !found {
+		return false, "the parameter never reaches the map as the key"
+	}
+	return true, ""
 }
